@@ -138,16 +138,33 @@ type Scenario struct {
 	// MetricsRace: the metrics event handler is slow and nothing waits for the metrics server to come up —
 	// effective only when start-up fails right after startObservability (no OnStart hooks, listen fault).
 	MetricsRace bool `json:",omitempty"`
-	Metrics     bool
-	Tracing     bool
-	Listen      int
-	Starts      []int
-	Readies     []int
-	NReload     int
-	Shuts       []int
-	Stops       []int
-	Reqs        []Rel
-	Rounds      []Round
+	// LateReg: the OnReady, OnShutdown and OnStop hooks are registered from inside the first OnStart hook
+	// (legal: the router is not frozen yet) instead of before Start. Needs at least one OnStart hook.
+	LateReg bool `json:",omitempty"`
+	// ByDeadline: the stop signal is the expiry of a deadline on the lifecycle context, not a cancel.
+	ByDeadline bool `json:",omitempty"`
+	Metrics    bool
+	Tracing    bool
+	Listen     int
+	Starts     []int
+	Readies    []int
+	NReload    int
+	Shuts      []int
+	Stops      []int
+	Reqs       []Rel
+	Rounds     []Round
+}
+
+func (sc *Scenario) lateReg() bool { return sc.LateReg && len(sc.Starts) > 0 }
+
+// slowStop: index of the first OnStop hook that takes longer than the whole shutdown timeout (-1: none)
+func (sc *Scenario) slowStop() int {
+	for i, b := range sc.Stops {
+		if b == bBlock {
+			return i
+		}
+	}
+	return -1
 }
 
 func (sc *Scenario) metricsRace() bool {
@@ -194,7 +211,7 @@ func (sc *Scenario) needsSerial() bool {
 }
 
 func (sc *Scenario) tokens(l *hx.Line) {
-	l.Tok("P").Nat(sc.Proto).Tok("X").Nat(sc.LateHup).Bool(sc.MetDead).Bool(sc.metricsRace()).Bool(sc.Metrics).Bool(sc.Tracing).Nat(sc.Listen)
+	l.Tok("P").Nat(sc.Proto).Tok("X").Nat(sc.LateHup).Bool(sc.MetDead).Bool(sc.metricsRace()).Bool(sc.lateReg()).Bool(sc.ByDeadline).Bool(sc.Metrics).Bool(sc.Tracing).Nat(sc.Listen)
 	ints := func(xs []int) {
 		l.Nat(len(xs))
 		for _, x := range xs {
@@ -303,6 +320,52 @@ type reqState struct {
 
 type roundKey struct{}
 
+// errStopDeadline is what the lifecycle context of a ByDeadline scenario reports once it has expired: it
+// is context.DeadlineExceeded to errors.Is, yet distinguishable from the deadline of the drain.
+type stopDeadlineErr struct{}
+
+func (stopDeadlineErr) Error() string   { return context.DeadlineExceeded.Error() }
+func (stopDeadlineErr) Is(t error) bool { return t == context.DeadlineExceeded }
+func (stopDeadlineErr) Timeout() bool   { return true }
+
+var errStopDeadline error = stopDeadlineErr{}
+
+// deadlineCtx is a lifecycle context that ends by deadline: Deadline() reports one, and when the harness
+// lets it expire Done() closes with a deadline error (what signal.NotifyContext never does, but what
+// `context.WithTimeout(ctx, maxUptime)` or a test's deadline does).
+type deadlineCtx struct {
+	context.Context
+	mu   sync.Mutex
+	dl   time.Time
+	done chan struct{}
+	err  error
+}
+
+func newDeadlineCtx() *deadlineCtx {
+	return &deadlineCtx{Context: context.Background(), dl: time.Now().Add(time.Hour), done: make(chan struct{})}
+}
+
+func (c *deadlineCtx) Deadline() (time.Time, bool) {
+	c.mu.Lock()
+	defer c.mu.Unlock()
+	return c.dl, true
+}
+func (c *deadlineCtx) Done() <-chan struct{} { return c.done }
+func (c *deadlineCtx) Err() error {
+	c.mu.Lock()
+	defer c.mu.Unlock()
+	return c.err
+}
+func (c *deadlineCtx) expire() {
+	c.mu.Lock()
+	defer c.mu.Unlock()
+	if c.err == nil {
+		c.dl = time.Now()
+		c.err = errStopDeadline
+		close(c.done)
+	}
+}
+
 // lockedBuf is the io.Writer the application's logger writes to.
 type lockedBuf struct {
 	mu sync.Mutex
@@ -397,6 +460,8 @@ type runner struct {
 
 	logBuf lockedBuf // what the application's logger has written
 
+	registerRest func() // registers the OnReady, OnShutdown and OnStop hooks
+
 	drainPending atomic.Bool // the drainer has requests to release and has not released them all yet
 
 	abandoned atomic.Bool   // the case hit its deadline: its goroutines must not touch anything process-wide any more
@@ -489,6 +554,24 @@ func (r *runner) timingForced() bool {
 		}
 		if !stuck {
 			x = -1 // no wait in this scenario
+		}
+	}
+	if k := r.sc.slowStop(); k >= 0 {
+		if bstar >= 0 || stuck {
+			return true // two waits: nothing to check against (the generator does not build these)
+		}
+		// the one wait of the scenario is inside the slow OnStop hook: it ends with that hook's exit event
+		want, enter := fmt.Sprintf("P %d", k), fmt.Sprintf("p %d ", k)
+		for j := i0 + 1; j <= ir; j++ {
+			if r.log[j] == want {
+				x = j
+				break
+			}
+			if strings.HasPrefix(r.log[j], enter) && x < 0 {
+				// the hook has been entered; should Start return before the hook is through, the wait ends
+				// there (the harness has no part in this wait)
+				x = j + 1
+			}
 		}
 	}
 	var before, after time.Duration
@@ -928,7 +1011,7 @@ func classify(err error) int {
 	switch {
 	case err == nil:
 		return 0
-	case errors.Is(err, errInjected), errors.Is(err, context.Canceled):
+	case errors.Is(err, errInjected), errors.Is(err, context.Canceled), errors.Is(err, errStopDeadline):
 		return 1 // an OnStart hook returned an error / gave up with its cancelled context
 	case errors.Is(err, syscall.EADDRINUSE), errors.Is(err, syscall.EADDRNOTAVAIL), errors.Is(err, fs.ErrNotExist):
 		return 2 // the server could not be started: bind failed, key pair unreadable
@@ -1027,6 +1110,9 @@ func (r *runner) build() error {
 	}
 	for i, b := range sc.Starts {
 		a.OnStart(func(ctx context.Context) error {
+			if i == 0 && sc.lateReg() {
+				r.registerRest()
+			}
 			r.ev(fmt.Sprintf("s %d %s %s", i, r.probes2(), b2s(r.a.Router().Frozen())))
 			var err error
 			switch b {
@@ -1046,70 +1132,85 @@ func (r *runner) build() error {
 			return err
 		})
 	}
-	r.readyLeft.Store(int64(len(sc.Readies)))
-	if len(sc.Readies) == 0 {
-		close(r.readyAll)
-	}
-	for i, b := range sc.Readies {
-		a.OnReady(func() {
-			r.ev(fmt.Sprintf("y %d %s %s", i, r.probes2(), b2s(r.a.Router().Frozen())))
-			if r.readyLeft.Add(-1) == 0 {
-				close(r.readyAll) // every OnReady hook has been entered
-			}
-			switch {
-			case isPanic(b):
-				panicWith(b, "ready")
-			case b == bBlock:
-				// a hook that does not come back (a long warm-up): fire-and-forget means that nothing waits for it
-				select {
-				case <-r.startDone:
-				case <-r.abandonCh:
+	// the OnReady / OnShutdown / OnStop hooks: registered before Start, or (LateReg) from inside the first
+	// OnStart hook
+	r.registerRest = func() {
+		r.readyLeft.Store(int64(len(sc.Readies)))
+		if len(sc.Readies) == 0 {
+			close(r.readyAll)
+		}
+		for i, b := range sc.Readies {
+			a.OnReady(func() {
+				r.ev(fmt.Sprintf("y %d %s %s", i, r.probes2(), b2s(r.a.Router().Frozen())))
+				if r.readyLeft.Add(-1) == 0 {
+					close(r.readyAll) // every OnReady hook has been entered
 				}
+				switch {
+				case isPanic(b):
+					panicWith(b, "ready")
+				case b == bBlock:
+					// a hook that does not come back (a long warm-up): fire-and-forget means that nothing waits for it
+					select {
+					case <-r.startDone:
+					case <-r.abandonCh:
+					}
+				}
+			})
+		}
+		for i, b := range sc.Shuts {
+			a.OnShutdown(func(ctx context.Context) {
+				live := ctx.Err() == nil
+				r.ev(fmt.Sprintf("h %d %s %s", i, r.probes2(), b2s(live)))
+				if sc.LateHup == 1 && i == len(sc.Shuts)-1 {
+					r.lateHup()
+				}
+				for k, q := range sc.Reqs {
+					if q.Kind == "H" && q.J == i {
+						r.releaseReq(k, true)
+					}
+				}
+				if b == bBlock {
+					<-ctx.Done()
+				}
+				r.ev(fmt.Sprintf("H %d", i))
+				if isPanic(b) {
+					panicWith(b, "shutdown")
+				}
+			})
+		}
+		// instrumentation hook (not logged, registered last = runs first): the asynchronous OnReady hooks
+		// have all been entered (and have logged) before the first logged shutdown event
+		a.OnShutdown(func(ctx context.Context) {
+			if !waitCh(r.readyAll, 5*time.Second) {
+				r.notes = append(r.notes, "ready hooks missing at shutdown")
 			}
 		})
+		for i, b := range sc.Stops {
+			a.OnStop(func() {
+				r.ev(fmt.Sprintf("p %d %s", i, r.probes2()))
+				if sc.LateHup == 2 && i == 0 {
+					r.lateHup()
+				}
+				if b == bBlock {
+					// a slow clean-up step: longer than the whole shutdown timeout. OnStop hooks have no deadline;
+					// Start returns only after them.
+					select {
+					case <-time.After(1250 * time.Millisecond):
+					case <-r.abandonCh:
+					}
+				}
+				r.ev(fmt.Sprintf("P %d", i))
+				if isPanic(b) {
+					panicWith(b, "stop")
+				}
+			})
+		}
+	}
+	if !sc.lateReg() {
+		r.registerRest()
 	}
 	for i := 0; i < sc.NReload; i++ {
 		a.OnReload(r.reloadHook(i))
-	}
-	for i, b := range sc.Shuts {
-		a.OnShutdown(func(ctx context.Context) {
-			live := ctx.Err() == nil
-			r.ev(fmt.Sprintf("h %d %s %s", i, r.probes2(), b2s(live)))
-			if sc.LateHup == 1 && i == len(sc.Shuts)-1 {
-				r.lateHup()
-			}
-			for k, q := range sc.Reqs {
-				if q.Kind == "H" && q.J == i {
-					r.releaseReq(k, true)
-				}
-			}
-			if b == bBlock {
-				<-ctx.Done()
-			}
-			r.ev(fmt.Sprintf("H %d", i))
-			if isPanic(b) {
-				panicWith(b, "shutdown")
-			}
-		})
-	}
-	// instrumentation hook (not logged, registered last = runs first): the asynchronous OnReady hooks
-	// have all been entered (and have logged) before the first logged shutdown event
-	a.OnShutdown(func(ctx context.Context) {
-		if !waitCh(r.readyAll, 5*time.Second) {
-			r.notes = append(r.notes, "ready hooks missing at shutdown")
-		}
-	})
-	for i, b := range sc.Stops {
-		a.OnStop(func() {
-			r.ev(fmt.Sprintf("p %d %s", i, r.probes2()))
-			if sc.LateHup == 2 && i == 0 {
-				r.lateHup()
-			}
-			r.ev(fmt.Sprintf("P %d", i))
-			if isPanic(b) {
-				panicWith(b, "stop")
-			}
-		})
 	}
 	return nil
 }
@@ -1135,7 +1236,12 @@ func (r *runner) run() obsT {
 	r.abandonCh = make(chan struct{})
 	r.readyAll = make(chan struct{})
 	r.hupRound.Store(-1)
-	r.ctx, r.cancelFn = context.WithCancel(context.Background())
+	if sc.ByDeadline {
+		dc := newDeadlineCtx()
+		r.ctx, r.cancelFn = dc, dc.expire
+	} else {
+		r.ctx, r.cancelFn = context.WithCancel(context.Background())
+	}
 	defer r.cancelFn()
 	for range sc.Reqs {
 		r.reqs = append(r.reqs, &reqState{entered: make(chan struct{}), release: make(chan bool, 1), done: make(chan struct{})})
@@ -1519,6 +1625,15 @@ func emit(id string, sc *Scenario, o obsT, st *hx.Stats) string {
 		if sc.metricsRace() {
 			st.Count("metrics_race")
 		}
+		if sc.lateReg() {
+			st.Count("hooks_registered_inside_onstart")
+		}
+		if sc.ByDeadline {
+			st.Count("stop_by_deadline")
+		}
+		if sc.slowStop() >= 0 {
+			st.Count("slow_onstop_hook")
+		}
 		if len(sc.Reqs) > 0 {
 			st.Count("inflight")
 		}
@@ -1612,12 +1727,15 @@ var inChild bool
 type childJob struct {
 	ID string
 	Sc *Scenario
+	// PortCtr: the child takes its ports from a block the parent has reserved for it (two processes that
+	// hand out ports from the same range would otherwise meet each other's servers)
+	PortCtr int64
 }
 
 // runInChild runs the scenario in a process of its own and returns what it observed; a child killed by a
 // signal is the observation RES 7.
 func runInChild(id string, sc *Scenario) obsT {
-	in, _ := json.Marshal(childJob{id, sc})
+	in, _ := json.Marshal(childJob{id, sc, portCtr.Add(8) - 8})
 	ctx, cancel := context.WithTimeout(context.Background(), 60*time.Second)
 	defer cancel()
 	cmd := exec.CommandContext(ctx, os.Args[0], "child")
@@ -1696,6 +1814,7 @@ func main() {
 		if err := json.NewDecoder(os.Stdin).Decode(&j); err != nil || j.Sc == nil {
 			os.Exit(2)
 		}
+		portCtr.Store(j.PortCtr)
 		o := runScenario(j.ID, j.Sc)
 		b, _ := json.Marshal(o)
 		realOut.Write(b)
